@@ -364,4 +364,201 @@ theorem cview_group (occs : List Spec.Occ) (acc : List CF) :
       rw [← hslot, hf]
       simp [cview, cviewCF]
 
+section SecondPass
+open Spec
+/-- visited sets only grow -/
+theorem occ_vis_grows (frags : List Frag) (vars : Vars) (applies : String → Bool) :
+    ∀ (fuel : Nat) (l : List Sel) (dfr : Option String) (vis : List String) (os : List Occ) (v' : List String),
+      occurrences frags vars applies fuel l dfr vis = some (os, v') → ∀ x, x ∈ vis → x ∈ v' := by
+  intro fuel
+  induction fuel with
+  | zero => intro l dfr vis os v' h; simp [occurrences] at h
+  | succ fuel ih =>
+    intro l dfr vis os v' h
+    cases l with
+    | nil => simp only [occurrences, Option.some.injEq, Prod.mk.injEq] at h; obtain ⟨_, rfl⟩ := h; exact fun x hx => hx
+    | cons sel rest =>
+      cases sel with
+      | field alias name objDef dirs ss =>
+        simp only [occurrences] at h
+        split at h
+        · exact ih rest dfr vis os v' h
+        · cases hr : occurrences frags vars applies fuel rest dfr vis with
+          | none => rw [hr] at h; simp at h
+          | some r =>
+            obtain ⟨os1, v1⟩ := r
+            rw [hr] at h; simp only [Option.some.injEq, Prod.mk.injEq] at h
+            obtain ⟨_, rfl⟩ := h
+            exact ih rest dfr vis os1 v1 hr
+      | inline tc dirs ss =>
+        simp only [occurrences] at h
+        split at h
+        · exact ih rest dfr vis os v' h
+        · split at h
+          · exact ih rest dfr vis os v' h
+          · cases hi : occurrences frags vars applies fuel ss
+                (if dfr.isSome then dfr else if (deferrable vars dirs).1 then some (deferrable vars dirs).2 else none) vis with
+            | none => rw [hi] at h; simp at h
+            | some r1 =>
+              obtain ⟨inner, v1⟩ := r1
+              rw [hi] at h; simp only [] at h
+              cases ho : occurrences frags vars applies fuel rest dfr v1 with
+              | none => rw [ho] at h; simp at h
+              | some r2 =>
+                obtain ⟨os2, v2⟩ := r2
+                rw [ho] at h; simp only [Option.some.injEq, Prod.mk.injEq] at h
+                obtain ⟨_, rfl⟩ := h
+                intro x hx
+                exact ih rest dfr v1 os2 v2 ho x (ih ss _ vis inner v1 hi x hx)
+      | spread fname dirs =>
+        simp only [occurrences] at h
+        split at h
+        · exact ih rest dfr vis os v' h
+        · split at h
+          · exact ih rest dfr vis os v' h
+          · cases hf : frags.find? (·.name == fname) with
+            | none => rw [hf] at h; simp at h
+            | some fr =>
+              rw [hf] at h; simp only [] at h
+              split at h
+              · intro x hx
+                exact ih rest dfr (fname :: vis) os v' h x (List.mem_cons_of_mem _ hx)
+              · cases hi : occurrences frags vars applies fuel fr.sels
+                    (if dfr.isSome then dfr else if (deferrable vars dirs).1 then some (deferrable vars dirs).2 else none)
+                    (fname :: vis) with
+                | none => rw [hi] at h; simp at h
+                | some r1 =>
+                  obtain ⟨inner, v1⟩ := r1
+                  rw [hi] at h; simp only [] at h
+                  cases ho : occurrences frags vars applies fuel rest dfr v1 with
+                  | none => rw [ho] at h; simp at h
+                  | some r2 =>
+                    obtain ⟨os2, v2⟩ := r2
+                    rw [ho] at h; simp only [Option.some.injEq, Prod.mk.injEq] at h
+                    obtain ⟨_, rfl⟩ := h
+                    intro x hx
+                    exact ih rest dfr v1 os2 v2 ho x (ih fr.sels _ (fname :: vis) inner v1 hi x (List.mem_cons_of_mem _ hx))
+
+theorem contains_of_mem (l : List String) (x : String) (h : x ∈ l) : l.contains x = true := by
+  simp [List.contains_iff_mem, h]
+
+/-- **A second pass is absorbed.** If a selection list has been collected from `vis` (ending in `v'`), then
+collecting it again from any visited set that includes `v'` enters no fragment body: the visited set is
+unchanged and every occurrence it yields is (key and sub-selection) one the first pass yielded, in order. -/
+theorem occ_second_pass (frags : List Frag) (vars : Vars) (applies : String → Bool) :
+    ∀ (fuel : Nat) (l : List Sel) (dfr : Option String) (vis : List String) (os : List Occ) (v' : List String),
+      occurrences frags vars applies fuel l dfr vis = some (os, v') →
+      ∀ (vis₂ : List String) (dfr₂ : Option String), (∀ x, x ∈ v' → x ∈ vis₂) →
+        ∃ os₂, occurrences frags vars applies fuel l dfr₂ vis₂ = some (os₂, vis₂) ∧
+          (oview os₂).Sublist (oview os) := by
+  intro fuel
+  induction fuel with
+  | zero => intro l dfr vis os v' h; simp [occurrences] at h
+  | succ fuel ih =>
+    intro l dfr vis os v' h vis₂ dfr₂ hsub
+    cases l with
+    | nil =>
+      simp only [occurrences, Option.some.injEq, Prod.mk.injEq] at h; obtain ⟨rfl, rfl⟩ := h
+      exact ⟨[], by simp [occurrences], by simp [oview]⟩
+    | cons sel rest =>
+      cases sel with
+      | field alias name objDef dirs ss =>
+        simp only [occurrences] at h ⊢
+        by_cases hinc : (!shouldInclude vars dirs) = true
+        · simp only [hinc, ↓reduceIte] at h ⊢
+          exact ih rest dfr vis os v' h vis₂ dfr₂ hsub
+        · simp only [hinc, Bool.false_eq_true, ↓reduceIte] at h ⊢
+          cases hr : occurrences frags vars applies fuel rest dfr vis with
+          | none => rw [hr] at h; simp at h
+          | some r =>
+            obtain ⟨os1, v1⟩ := r
+            rw [hr] at h; simp only [Option.some.injEq, Prod.mk.injEq] at h
+            obtain ⟨rfl, rfl⟩ := h
+            obtain ⟨os₂, h2, hs2⟩ := ih rest dfr vis os1 v1 hr vis₂ dfr₂ hsub
+            rw [h2]
+            exact ⟨_, rfl, by simp only [oview, List.map_cons]; exact List.Sublist.cons₂ _ hs2⟩
+      | inline tc dirs ss =>
+        simp only [occurrences] at h ⊢
+        by_cases hinc : (!shouldInclude vars dirs) = true
+        · simp only [hinc, ↓reduceIte] at h ⊢
+          exact ih rest dfr vis os v' h vis₂ dfr₂ hsub
+        · simp only [hinc, Bool.false_eq_true, ↓reduceIte] at h ⊢
+          by_cases htc : (tc != "" && !applies tc) = true
+          · simp only [htc, ↓reduceIte] at h ⊢
+            exact ih rest dfr vis os v' h vis₂ dfr₂ hsub
+          · simp only [htc, Bool.false_eq_true, ↓reduceIte] at h ⊢
+            cases hi : occurrences frags vars applies fuel ss
+                (if dfr.isSome then dfr else if (deferrable vars dirs).1 then some (deferrable vars dirs).2 else none) vis with
+            | none => rw [hi] at h; simp at h
+            | some r1 =>
+              obtain ⟨inner, v1⟩ := r1
+              rw [hi] at h; simp only [] at h
+              cases ho : occurrences frags vars applies fuel rest dfr v1 with
+              | none => rw [ho] at h; simp at h
+              | some r2 =>
+                obtain ⟨osr, v2⟩ := r2
+                rw [ho] at h; simp only [Option.some.injEq, Prod.mk.injEq] at h
+                obtain ⟨rfl, rfl⟩ := h
+                have hv1 : ∀ x, x ∈ v1 → x ∈ vis₂ := fun x hx =>
+                  hsub x (occ_vis_grows frags vars applies fuel rest dfr v1 osr v2 ho x hx)
+                obtain ⟨in₂, hi2, hsi⟩ := ih ss _ vis inner v1 hi vis₂
+                  (if dfr₂.isSome then dfr₂ else if (deferrable vars dirs).1 then some (deferrable vars dirs).2 else none) hv1
+                obtain ⟨os₂, ho2, hso⟩ := ih rest dfr v1 osr v2 ho vis₂ dfr₂ hsub
+                rw [hi2]; simp only []
+                rw [ho2]
+                exact ⟨_, rfl, by simp only [oview, List.map_append]; exact List.Sublist.append hsi hso⟩
+      | spread fname dirs =>
+        simp only [occurrences] at h ⊢
+        by_cases hinc : (!shouldInclude vars dirs) = true
+        · simp only [hinc, ↓reduceIte] at h ⊢
+          exact ih rest dfr vis os v' h vis₂ dfr₂ hsub
+        · simp only [hinc, Bool.false_eq_true, ↓reduceIte] at h ⊢
+          by_cases hv : vis.contains fname = true
+          · simp only [hv, ↓reduceIte] at h
+            have hv2 : vis₂.contains fname = true := by
+              apply contains_of_mem
+              apply hsub
+              exact occ_vis_grows frags vars applies fuel rest dfr vis os v' h fname (by simpa using hv)
+            simp only [hv2, ↓reduceIte]
+            exact ih rest dfr vis os v' h vis₂ dfr₂ hsub
+          · simp only [hv, Bool.false_eq_true, ↓reduceIte] at h
+            cases hf : frags.find? (·.name == fname) with
+            | none => rw [hf] at h; simp at h
+            | some fr =>
+              rw [hf] at h; simp only [] at h
+              -- whatever the first pass did with the fragment, it marked it visited
+              have key : ∃ osr vr, occurrences frags vars applies fuel rest dfr vr = some (osr, v') ∧
+                  (fname ∈ v') ∧ (oview osr).Sublist (oview os) := by
+                by_cases hap : (!applies fr.typeCond) = true
+                · simp only [hap, ↓reduceIte] at h
+                  exact ⟨os, fname :: vis, h,
+                    occ_vis_grows frags vars applies fuel rest dfr (fname :: vis) os v' h fname (by simp),
+                    List.Sublist.refl _⟩
+                · simp only [hap, Bool.false_eq_true, ↓reduceIte] at h
+                  cases hi : occurrences frags vars applies fuel fr.sels
+                      (if dfr.isSome then dfr else if (deferrable vars dirs).1 then some (deferrable vars dirs).2 else none)
+                      (fname :: vis) with
+                  | none => rw [hi] at h; simp at h
+                  | some r1 =>
+                    obtain ⟨inner, v1⟩ := r1
+                    rw [hi] at h; simp only [] at h
+                    cases ho : occurrences frags vars applies fuel rest dfr v1 with
+                    | none => rw [ho] at h; simp at h
+                    | some r2 =>
+                      obtain ⟨osr, v2⟩ := r2
+                      rw [ho] at h; simp only [Option.some.injEq, Prod.mk.injEq] at h
+                      obtain ⟨rfl, rfl⟩ := h
+                      refine ⟨osr, v1, ho, ?_, ?_⟩
+                      · exact occ_vis_grows frags vars applies fuel rest dfr v1 osr v2 ho fname
+                          (occ_vis_grows frags vars applies fuel fr.sels _ (fname :: vis) inner v1 hi fname (by simp))
+                      · simp only [oview, List.map_append]
+                        exact List.sublist_append_right _ _
+              obtain ⟨osr, vr, hrest, hmem, hsl⟩ := key
+              have hv2 : vis₂.contains fname = true := contains_of_mem _ _ (hsub fname hmem)
+              simp only [hv2, ↓reduceIte]
+              obtain ⟨os₂, ho2, hso⟩ := ih rest dfr vr osr v' hrest vis₂ dfr₂ hsub
+              exact ⟨os₂, ho2, hso.trans hsl⟩
+
+end SecondPass
+
 end GqlgenVerif
